@@ -780,8 +780,141 @@ def http(ctx):
         shutil.rmtree(tmp, ignore_errors=True)
 
 
+def buffers(ctx, reqs, meta):
+    """the sharded writer's buffers under failures, next to the Lean `Buffers` model:
+    (a) OnDiskByteArray.__add__ histories with failing open / partial writes; (b) MiniShard.store_cmc_chunk whose
+    flush fails at its n-th deferred append, then a second flush and close"""
+    import builtins
+    from neuroglancer_scripts.sharded_base import ShardSpec
+    from neuroglancer_scripts.sharded_file_accessor import InMemByteArray, MiniShard, OnDiskByteArray
+    from .c05 import real_state
+    rng = ctx.rng
+    real_open = builtins.open
+    # ---- (a) ----
+    for _ in range(ctx.budget(25, 400)):
+        tmp = tempfile.mkdtemp(prefix="ngv_c18b_")
+        old_tmpdir = tempfile.tempdir
+        tempfile.tempdir = tmp
+        try:
+            odb = OnDiskByteArray()
+            hist, mem = [], b""
+            plan = {"ev": "ok"}
+
+            class W:
+                def __init__(self, f, k):
+                    self.f, self.k = f, k
+
+                def write(self, b):
+                    self.f.write(bytes(b)[:self.k])
+                    self.f.flush()
+                    raise OSError(errno.ENOSPC, "No space left on device")
+
+                def __enter__(self):
+                    return self
+
+                def __exit__(self, *a):
+                    self.f.close()
+
+            def fake_open(path, mode="r", *a, **k):
+                if str(path) == str(odb._file) and "a" in mode:
+                    if plan["ev"] == "open":
+                        raise OSError(errno.EACCES, "Permission denied")
+                    if plan["ev"].startswith("w"):
+                        return W(real_open(path, mode, *a, **k), int(plan["ev"][1:]))
+                return real_open(path, mode, *a, **k)
+            outcomes = []
+            builtins.open = fake_open
+            try:
+                for _i in range(rng.randrange(1, 8)):
+                    pay = bytes(rng.randrange(256) for _ in range(rng.choice([0, 1, 2, 5, 9])))
+                    ev = rng.choice(["ok", "ok", "ok", "open", "w%d" % rng.randrange(0, len(pay) + 1)])
+                    plan["ev"] = ev
+                    try:
+                        odb += pay
+                        outcomes.append("ok")
+                        mem += pay
+                    except OSError:
+                        outcomes.append("OSError")
+                    except Exception as exc:  # noqa
+                        outcomes.append(type(exc).__name__)
+                    hist.append(core.hexs(pay) + ":" + ev)
+            finally:
+                builtins.open = real_open
+            content = b"".join(bytes(b) for b in odb) if os.path.exists(odb._file) else b""
+            desc = {"buffer": "OnDiskByteArray", "history": hist, "outcomes": outcomes}
+            ctx.case(("odb", tuple(hist)))
+            for h, o in zip(hist, outcomes):
+                if o != ("ok" if h.endswith(":ok") else "OSError"):
+                    ctx.oracle_fail(f"an append to the disk-backed buffer ended as {o}", desc)
+            if content != mem or len(odb) != len(mem):
+                ctx.oracle_fail("after failed appends the disk-backed write buffer no longer holds exactly the payloads of "
+                                "the appends that returned normally (or reports another length)",
+                                dict(desc, file=content.hex(), reported_len=len(odb), expected=mem.hex()))
+            reqs.append("odb-run " + ";".join(hist))
+            meta.append((desc, f"{core.hexs(content)} {len(odb)}"))
+        finally:
+            tempfile.tempdir = old_tmpdir
+            shutil.rmtree(tmp, ignore_errors=True)
+    # ---- (b) ----
+    for _ in range(ctx.budget(40, 600)):
+        m, s_, p = rng.randrange(3), rng.randrange(3), rng.randrange(3)
+        fixed = rng.getrandbits(m + s_) if m + s_ else 0
+
+        def rank_to_id(n, m=m, s_=s_, p=p, fixed=fixed):
+            return ((n >> p) << (p + s_ + m)) + (fixed << p) + (n & ((1 << p) - 1))
+        k = rng.randrange(2, 7)
+        later = rng.sample(range(1, 9), k - 1)      # stored first, all waiting for rank 0
+        okn = rng.randrange(0, k + 1)
+        ms = MiniShard(ShardSpec(m, s_, "identity", "raw", "raw", p), strategy="in memory")
+
+        class Failing(InMemByteArray):
+            calls = 0
+            fail_at = None
+
+            def __iadd__(self, o):
+                self.calls += 1
+                if self.calls == self.fail_at:
+                    raise OSError(errno.ENOSPC, "No space left on device")
+                return super().__iadd__(o)
+        ops = [(rank_to_id(r), bytes([r, 7, r][:1 + r % 3])) for r in later] + [(rank_to_id(0), b"\x00\x01")]
+        desc = {"minishard": [m, s_, p], "ranks": later + [0], "flush_append_failing": okn + 1}
+        try:
+            for cid, pay in ops[:-1]:
+                ms.store_cmc_chunk(pay, np.uint64(cid))
+            fb = Failing(bytes(ms.databytearray))
+            fb.fail_at = okn + 2          # call 1 is the append of the last store itself
+            ms.databytearray = fb
+            try:
+                ms.store_cmc_chunk(ops[-1][1], np.uint64(ops[-1][0]))
+                first = "ok " + real_state(ms)
+            except OSError:
+                first = "raised " + real_state(ms)
+            fb.fail_at = None             # the fault is over (or never fired: fewer deferred appends than okn)
+            ms.flush_buffer()
+            ms.close()
+            data = b"".join(bytes(b) for b in ms.databytearray)
+            impl = first + "|closed " + real_state(ms) + " " + core.hexs(data)
+        except Exception as exc:  # noqa
+            impl = "!" + type(exc).__name__
+            ctx.oracle_fail(f"a failing deferred append made the minishard writer raise {type(exc).__name__}: {exc}", desc)
+        ctx.case(("ms-fail", m, s_, p, tuple(later), okn))
+        # oracle: every stored chunk is listed in the closed minishard with its bytes
+        if not impl.startswith("!"):
+            from .c05 import walk_rows
+            hdr = np.asarray(ms.header, dtype=np.uint64).reshape(-1, 3)
+            rows = [(int(r[0]), int(r[2])) for r in hdr]
+            for cid, pay in ops:
+                if walk_rows(rows, data, cid) != pay:
+                    ctx.oracle_fail("a chunk whose store returned normally is missing from the closed minishard after a "
+                                    "deferred append failed once", dict(desc, id=cid))
+                    break
+        reqs.append(f"ms-run-fail {m} {s_} {p} {okn} " + ",".join(f"{cid}:{core.hexs(pay)}" for cid, pay in ops))
+        meta.append((desc, impl))
+
+
 def run(ctx):
     reqs, meta = [], []
+    buffers(ctx, reqs, meta)
     plain_files(ctx, reqs, meta)
     prefixes(ctx)
     os_faults(ctx)
